@@ -187,7 +187,9 @@ def tracker_history(rng, kind, steps):
             d = u6(o[:5], None if rng.random() < 0.6 else f32(rng.uniform(0.3, 1.0))) + " " + ("-" if rng.random() < 0.5 else str(rng.randint(-5, 50)))
             if visual:
                 feat = None if rng.random() < 0.2 else [f32(x + rng.gauss(0, 0.02)) for x in o[7]]
-                d += " %s %s" % (optf32(None if rng.random() < 0.3 else f32(rng.uniform(0.2, 1.0))), "0" if feat is None else "%d %s" % (len(feat), " ".join(f32tok(x) for x in feat)))
+                ftok = "0" if feat is None else "%d %s" % (len(feat), " ".join(f32tok(x) for x in feat))
+                if rng.random() < 0.06: ftok = "e"          # a feature vector that is present but empty
+                d += " %s %s" % (optf32(None if rng.random() < 0.3 else f32(rng.uniform(0.2, 1.0))), ftok)
             ds.append(d)
         return ds
     for _ in range(steps):
